@@ -1346,6 +1346,18 @@ def _np_fmod(interp, args, kwargs):
     return ops.mfmod(interp.ctx, x, y)
 
 
+def _np_format_float_positional(interp, args, kwargs):
+    v = args[0]
+    if type(v).__name__ == "NumText":
+        v = v.value
+    if type(v) is Sym:
+        from .xmlmodel import NumText
+
+        interp.ctx.used_models.add("np.format_float_positional: plain decimal text denoting exactly the float")
+        return NumText(Sym(to_real(num_term(v)), float), "plain", v)
+    return np.format_float_positional(v, **kwargs)
+
+
 def _np_cmp(opcls):
     def model(interp, args, kwargs):
         return interp.compare(opcls, args[0], args[1])
@@ -1472,6 +1484,7 @@ def build_models():
         np.arctan2: lambda it, a, k: ops.matan2(it.ctx, a[0], a[1], True) if (type(a[0]) is Sym or type(a[1]) is Sym) else np.arctan2(a[0], a[1]),
         np.hypot: lambda it, a, k: ops.mhypot(it.ctx, a[0], a[1], True) if (type(a[0]) is Sym or type(a[1]) is Sym) else np.hypot(a[0], a[1]),
         np.fmod: _np_fmod,
+        np.format_float_positional: _np_format_float_positional,
         np.greater_equal: _np_cmp(ast.GtE),
         np.less_equal: _np_cmp(ast.LtE),
         np.greater: _np_cmp(ast.Gt),
